@@ -268,6 +268,21 @@ func (m *Manager) DeleteAllocation(fiveTuple *FiveTuple) {
 	m.deleteAllocation(fiveTuple, nil)
 }
 
+// DeleteAllocationOn removes the allocation of the fiveTuple if it was made over turnSocket:
+// when a stream client reconnects from the same address and port, the goroutine of its old
+// connection must not take down the allocation made over the new one.
+func (m *Manager) DeleteAllocationOn(fiveTuple *FiveTuple, turnSocket net.PacketConn) {
+	m.lock.RLock()
+	allocation := m.allocations[fiveTuple.Fingerprint()]
+	m.lock.RUnlock()
+
+	if allocation == nil || allocation.TurnSocket != turnSocket {
+		return
+	}
+
+	m.deleteAllocation(fiveTuple, allocation)
+}
+
 // deleteAllocation removes the allocation of the fiveTuple. If only is set, nothing is
 // removed unless that very allocation is still the one registered for the fiveTuple, so
 // that the expired timer or the failed relay handler of an allocation that is already
